@@ -148,4 +148,24 @@ SubstLaw == \A g \in Groups(p, s) :
                    (IF Len(g) >= 2 THEN g[2] \o <<45>> \o g[1] \o <<DOLLAR>>
                     ELSE IF Len(g) = 1 THEN <<DOLLAR, 50, 45>> \o g[1] \o <<DOLLAR>>
                     ELSE <<DOLLAR, 50, 45, DOLLAR, 49, DOLLAR>>)
+
+----------------------------------------------------------------------------
+(* Non-vacuity: a matcher whose wildcards stop at a line feed (what an RE2 "." does
+   without the s flag).  LiteRoute_nonl.cfg must find that it differs from Match,
+   which shows the enumerated domain tells the two apart. *)
+LF == 10
+RECURSIVE MatchLine(_, _)
+MatchLine(pp, ss) ==
+    IF pp = <<>> THEN ss = <<>>
+    ELSE IF Head(pp) = STAR
+      THEN MatchLine(Tail(pp), ss) \/ (ss # <<>> /\ Head(ss) # LF /\ MatchLine(pp, Tail(ss)))
+    ELSE ss # <<>> /\ ((Head(pp) = QM /\ Head(ss) # LF) \/ Head(pp) = Head(ss))
+         /\ MatchLine(Tail(pp), Tail(ss))
+LineModeAgrees == Match(p, s) = MatchLine(p, s)
+
+(* Vector export: the pattern and host sets the harness crosses on the real code. *)
+VecOut == PrintT(<<"VEC", ToJson([pats |-> SeqsUpTo(PatAlpha, MaxPat),
+                                  hosts |-> SeqsUpTo(HostAlpha, MaxHost)])>>)
+VInit == p = <<>> /\ s = <<>>
+VSpec == VInit /\ [][Next]_<<p, s>>
 =============================================================================
